@@ -3,6 +3,7 @@
 package main
 
 import (
+	"os"
 	"fmt"
 	"math"
 	"reflect"
@@ -1309,6 +1310,13 @@ func c03DupRandom(c *Ctx) {
 }
 
 func runC03(c *Ctx) {
+	c03E2ESystematic(c)
+	for i := c.Budget(60, 4000); i > 0; i-- {
+		c03E2ERandom(c)
+	}
+	if os.Getenv("C03_ONLY") == "e2e" { // debugging aid
+		return
+	}
 	c03KeyCases(c, c.Budget(100, 5000))
 	c03LocKeyCases(c, c.Budget(100, 5000))
 	c03Regressions(c)
